@@ -347,6 +347,8 @@ def run(ctx):
         r9.check(o[0] == "return" and rec["children"] == [A, B], "node[children]", "element children are appended in argument order; None from generators is skipped", node_fn.loc(),
                  why_fail=f"children={rec.get('children')!r}")
     rules.append(r9)
+    from .c13 import cell_cleaning_rule
+    rules.append(cell_cleaning_rule(ctx, "C06", "C06.R10"))
     return rules
 
 
